@@ -218,6 +218,9 @@ func runSeq(rp *explore.Report, tier string) {
 				}
 			}
 		})
+		rp.Execs++ // one execution under the scheduler (default schedule) per assignment
+		rp.Transitions += int64(res.Steps)
+		rp.AddState(res.HBFinal)
 		if res.Deadlock || len(res.Panics) > 0 || res.StepCap {
 			msg := fmt.Sprintf("deadlock=%v blocked=%v stepcap=%v", res.Deadlock, res.Blocked, res.StepCap)
 			for _, p := range res.Panics {
